@@ -41,6 +41,16 @@ func (in *Interp) fresh(name string, s Sort) *Term {
 	return t
 }
 
+// freshInt: a symbolic machine integer in the Int encoding, constrained to its type's range.
+func (in *Interp) freshInt(name string, w int, signed bool) *Term {
+	t := in.fresh(name, intSort)
+	r := typeRange(w, signed)
+	varRange[t.id] = r
+	in.ex.addPC(in.path, mkICmp(OILe, mkInt(r.lo), t))
+	in.ex.addPC(in.path, mkICmp(OILe, t, mkInt(r.hi)))
+	return t
+}
+
 func strArg(v Val) string {
 	s, ok := v.(string)
 	if !ok {
@@ -52,15 +62,28 @@ func strArg(v Val) string {
 func vrtCall(fr *frame, fn *ssa.Function, args []Val) Val {
 	switch fn.Name() {
 	case "Int", "Int64":
+		if in.intMode {
+			return in.freshInt(strArg(args[0]), 64, true)
+		}
 		return in.fresh(strArg(args[0]), bvSort(64))
 	case "Uint64":
+		if in.intMode {
+			return in.freshInt(strArg(args[0]), 64, false)
+		}
 		return in.fresh(strArg(args[0]), bvSort(64))
 	case "Int32", "Rune":
+		if in.intMode {
+			return in.freshInt(strArg(args[0]), 32, true)
+		}
 		return in.fresh(strArg(args[0]), bvSort(32))
 	case "Byte":
 		return in.fresh(strArg(args[0]), bvSort(8))
 	case "Bool":
 		return in.fresh(strArg(args[0]), boolSort)
+	case "Big":
+		c := new(Val)
+		*c = &BigInt{t: in.fresh(strArg(args[0]), intSort)}
+		return c
 	case "Bytes", "String":
 		name := strArg(args[0])
 		n, ok := args[1].(int64)
